@@ -534,6 +534,9 @@ func C03(sp *spec.Spec, ex *rt.Exchange) *Verdict {
 			for _, a := range rrt.Attrs {
 				if spec.Norm(a.Name) == attr {
 					loc = locName(cases.RespLocOf(resp, a.Name))
+					if resp != nil && resp.Body == "attr:"+a.Name {
+						loc = "explicit-body" // the attribute IS the body of the selected response (Body("attr"))
+					}
 					kind = kindOf(sp, a.Type)
 					if a.HasDef {
 						kind += "+default"
